@@ -44,6 +44,8 @@ var c04Kinds = []string{
 	"restart-db-behind",       // new DB object, database replaced by older copy AND local meta kept (replica ahead)
 	"restart-ckpt-twice",      // new DB object; the application restarted the WAL twice, each generation shorter than the one before
 	"reopen-ckpt-twice",       // same, through Close/Open of the same DB object
+	"restart-recurring-image", // new DB object; the application checkpointed (mode) and refilled the WAL past the old cursor so that the frame AT the old cursor carries the same page number and page image as before (a one-row status toggle), in a new generation
+	"reopen-recurring-image",  // same, through Close/Open of the same DB object
 	"live-app-ckpt",           // litestream RUNNING: after its own checkpoint (read mark 0) and a sync to the WAL end, the application commits, checkpoints (mode) and commits again
 }
 
@@ -69,6 +71,9 @@ func pickScenario(rng *rand.Rand, i int) scenario {
 		s.nSynced = 5 + rng.Intn(3)
 		s.nBefore = 0 // nothing is appended to the generation litestream was reading
 		s.nAfter = 1
+	case "restart-recurring-image", "reopen-recurring-image":
+		s.mode = ckModes[(i/len(c04Kinds))%len(ckModes)]
+		s.nBefore = 1 + rng.Intn(2)
 	case "restart-writes", "restart-wal-removed":
 		s.nBefore = 1 + rng.Intn(3)
 		s.nAfter = rng.Intn(3)
@@ -163,6 +168,39 @@ func runC04(rc *Recorder, dir string, rng *rand.Rand, idx int) error {
 			return fmt.Errorf("setup SyncAndWait: %w", err)
 		}
 	}
+	recurring := sc.kind == "restart-recurring-image" || sc.kind == "reopen-recurring-image"
+	frameSz := int64(cfg.PageSize + 24)
+	// toggle: two one-page, one-frame transactions; the status page image recurs
+	oneFrame := func(q string) error {
+		before := walEnd(w.dbPath + "-wal")
+		if _, err := w.app.Exec(q); err != nil {
+			return err
+		}
+		if after := walEnd(w.dbPath + "-wal"); after != before+frameSz && after != 32+frameSz {
+			return fmt.Errorf("recurring-image setup: %q appended %d bytes, not one frame", q, after-before)
+		}
+		return nil
+	}
+	toggle := func() error {
+		if err := oneFrame("UPDATE st SET s='busy' WHERE id=1"); err != nil {
+			return err
+		}
+		return oneFrame("UPDATE st SET s='idle' WHERE id=1")
+	}
+	if recurring {
+		if _, err := w.app.Exec("CREATE TABLE IF NOT EXISTS st(id INTEGER PRIMARY KEY, s TEXT)"); err != nil {
+			return err
+		}
+		if _, err := w.app.Exec("INSERT OR REPLACE INTO st VALUES(1,'idle')"); err != nil {
+			return err
+		}
+		if err := toggle(); err != nil {
+			return err
+		}
+		if err := w.ldb.SyncAndWait(ctx); err != nil {
+			return fmt.Errorf("setup SyncAndWait: %w", err)
+		}
+	}
 	var olderCopy []byte
 	if sc.kind == "restart-db-replaced" || sc.kind == "restart-db-behind" {
 		// an older consistent version of the database (checkpointed copy)
@@ -226,7 +264,53 @@ func runC04(rc *Recorder, dir string, rng *rand.Rand, idx int) error {
 		}
 		return w.singleWrite("t")
 	}
+	// recurringAway: a lost commit, the checkpoint, then the WAL refilled so that the frame at the old
+	// cursor is again the 'idle' image of the status page (new generation), and two frames beyond
+	recurringAway := func() error {
+		for i := 0; i < sc.nBefore; i++ {
+			if err := w.singleWrite("u"); err != nil {
+				return err
+			}
+		}
+		var a, b, c int
+		if err := w.app.QueryRow("PRAGMA wal_checkpoint(" + sc.mode + ")").Scan(&a, &b, &c); err != nil {
+			return err
+		}
+		cursorFrames := (cursor - 32) / frameSz
+		if cursorFrames%2 == 1 {
+			if err := oneFrame("UPDATE ver SET n=n+1000000"); err != nil {
+				return err
+			}
+		}
+		for (walEnd(w.dbPath+"-wal")-32)/frameSz < cursorFrames+2 {
+			if err := toggle(); err != nil {
+				return err
+			}
+		}
+		return nil
+	}
 	switch sc.kind {
+	case "restart-recurring-image":
+		if err := w.ldb.Close(ctx); err != nil {
+			return fmt.Errorf("close before disturbance: %w", err)
+		}
+		if err := recurringAway(); err != nil {
+			return err
+		}
+		w.ldb = w.newLitestream()
+		if err := w.ldb.Open(); err != nil {
+			return fmt.Errorf("reopen: %w", err)
+		}
+	case "reopen-recurring-image":
+		if err := w.ldb.Close(ctx); err != nil {
+			return fmt.Errorf("close before disturbance: %w", err)
+		}
+		if err := recurringAway(); err != nil {
+			return err
+		}
+		if err := w.ldb.Open(); err != nil {
+			return fmt.Errorf("reopen same object: %w", err)
+		}
 	case "live-app-ckpt":
 		// litestream checkpoints itself (its read transaction restarts on a fully backfilled WAL), syncs to the end
 		if err := w.ldb.Checkpoint(ctx, "PASSIVE"); err != nil {
@@ -349,9 +433,12 @@ func runC04(rc *Recorder, dir string, rng *rand.Rand, idx int) error {
 	w.trace = append(w.trace, fmt.Sprintf("cursor=%d newEnd=%d", cursor, newEnd))
 	rc.cw.Classes["c04:"+w.scenario]++
 
-	// one more application write, then acknowledged syncs
-	if err := w.singleWrite("t"); err != nil {
-		return err
+	// one more application write, then acknowledged syncs (not in the recurring-image scenarios: the
+	// frame at the old cursor must stay the last thing litestream can compare)
+	if !recurring {
+		if err := w.singleWrite("t"); err != nil {
+			return err
+		}
 	}
 	// the first verify+sync after the disturbance, observed for the model (Db/Verify.v, Db/Sync.v)
 	if w.ldb.PageSize() != 0 {
